@@ -51,19 +51,23 @@ def log(*a):
 # Go driver
 # ----------------------------------------------------------------------------------------------
 def build_harness(race=False, cmd="mktsverif"):
-    """Build harness/cmd/<cmd> against /repo's current working tree with -tags verif."""
-    os.makedirs(BUILD, exist_ok=True)
-    out = os.path.join(BUILD, cmd + ("-race" if race else ""))
-    shutil.copyfile(os.path.join(REPO, "go.sum"), os.path.join(HARNESS, "go.sum"))
-    gomod = os.path.join(HARNESS, "go.mod")
+    """Build harness/cmd/<cmd> against the current working tree of REPO with -tags verif.
+
+    The harness sources are copied to the per-process scratch directory first, so that concurrent checks
+    (possibly against different trees, VERIF_REPO) never disturb each other; the Go build cache keeps it fast."""
+    src = os.path.join(scratch(), "harness")
+    if os.path.isdir(src):
+        shutil.rmtree(src)
+    shutil.copytree(HARNESS, src, ignore=shutil.ignore_patterns("go.sum"))
+    shutil.copyfile(os.path.join(REPO, "go.sum"), os.path.join(src, "go.sum"))
+    gomod = os.path.join(src, "go.mod")
     txt = open(gomod).read()
     want = "replace github.com/alpacahq/marketstore/v4 => %s\n" % REPO
-    new = re.sub(r"replace github.com/alpacahq/marketstore/v4 => .*\n", want, txt)
-    if new != txt:
-        open(gomod, "w").write(new)
-    cmd = ["go", "build", "-tags", "verif"] + (["-race"] if race else []) + ["-o", out, "./cmd/" + cmd]
+    open(gomod, "w").write(re.sub(r"replace github.com/alpacahq/marketstore/v4 => .*\n", want, txt))
+    out = os.path.join(scratch(), cmd + ("-race" if race else ""))
+    c = ["go", "build", "-tags", "verif"] + (["-race"] if race else []) + ["-o", out, "./cmd/" + cmd]
     t = time.time()
-    p = subprocess.run(cmd, cwd=HARNESS, env=GOENV, stdout=subprocess.PIPE, stderr=subprocess.STDOUT, text=True)
+    p = subprocess.run(c, cwd=src, env=GOENV, stdout=subprocess.PIPE, stderr=subprocess.STDOUT, text=True)
     if p.returncode != 0:
         # a tree that does not compile is not a property violation
         raise Undecided("harness build failed:\n" + p.stdout[-4000:])
